@@ -341,7 +341,8 @@ func TestSim(t *testing.T) {
 		id++
 		myid := id
 		fmt.Printf("SIM %d %s\n", myid, tag)
-		cfg.Log = myid % 4 // the properties hold for every client configuration, logging options included
+		cfg.CloseErr = (uint64(myid)*2654435761)>>13%3 == 0
+		cfg.Log = int((uint64(myid)*2654435761)>>9) % 4 // the properties hold for every client configuration, logging options included
 		synctest.Test(t, func(t *testing.T) {
 			s := newSim(cfg, seed*1000003+int64(myid))
 			s.boot()
